@@ -179,7 +179,7 @@ CHECKS["C15"] = {"pkg": "netsim", "test": "TestC15", "level": "exploration",
             "informer events through the real handlers, and prior kernel state (foreign chains/sets, stale GLX sets, stale GLX policy "
             "chains, a stale pod chain still referencing a stale policy chain). Oracle on the strict fakes: no rejected batch, non-GLX "
             "chains/rules/sets unchanged after every call, full sync of B == full sync of B on empty tables (canonical form), second full "
-            "sync changes nothing. The remaining confirmed finding (known_findings.txt K1; K2-K4 are repaired) is classified by signature, counted and skipped. "
+            "sync changes nothing. The four findings this check had recorded (K1-K4) are repaired; their signatures are still computed but nothing is excused any more. "
             "Non-trivial = B differs from A in >=1 policy and >=1 pod and stale GLX garbage had to be removed.",
     "assumptions": E3_ASSUME + ["one ipBlock peer per rule (several are merged into one set with conflicting elements, reported under C16)",
                                 "whether ipset 'add -exist' overwrites the nomatch flag is not settled; the fake keeps the existing element"],
